@@ -264,7 +264,7 @@ def run(chk):
 
     common.arg_agreement_rule(chk, P, "C19", [("emit", "src/macro_hooks.rs"), ("emit_macros", "src/capture.rs"), ("emit_macros", "src/optional.rs"),
                                                ("emit_macros", "src/hook.rs"), ("emit_core", "src/value.rs")], 3)
-    if chk.tier == "thorough":
+    if True:
         from . import corpus
         corpus.capture_rules(chk, "C19")
     return chk
